@@ -333,3 +333,7 @@ func VerifRegistryDump() string {
 // VerifAttrsOf returns the logger's own attribute slice itself (not a copy): C08
 // snapshots it before and after a log call to see whether the call wrote to it.
 func VerifAttrsOf(e *Entry) Attrs { return e.attrs }
+
+// VerifWidths / VerifSetWidths: the two process-wide width settings (no getter in the public API)
+func VerifWidths() (tagw, minw int) { return levelOutputWidth, minimalMessageWidth }
+func VerifSetWidths(tagw, minw int) { levelOutputWidth, minimalMessageWidth = tagw, minw }
